@@ -90,6 +90,11 @@ CHECKS = {
     technique="TLA+ spec RpycRegistry (table with refresh times, pruning, notifications, malformed and silent input) model-checked by TLC; TLC -simulate behaviours replayed on real UDPRegistryServer / TCPRegistryServer objects with scripted fake sockets and a virtual clock, one main-loop iteration per step, comparing reply, notifications, table and loop liveness; real loopback UDP/TCP confirmation run",
     text="TLC exhausts register/unregister/query/clock/malformed input for 3 addresses x 2 mixed-case names; each simulated behaviour is executed on real registry objects over UDP and TCP receive paths: replies must list exactly the live registrations oldest-refresh-first, notifications must match membership changes exactly, 13 kinds of malformed or silent input must neither change registrations nor stop or block the main loop",
     note="virtual clock and fake listening sockets (plus one real-socket run per transport); order among equal refresh times unspecified; three genuine defects found here were repaired by fix: commits"),
+    "C02": dict(
+        spec="RpycProxyOps", design="5/C02",
+        technique="TLA+ specs RpycProxyOps (operation semantics of 8 kinds of targets + the attribute access each proxy operation needs + configuration gate) and RpycBuffiter model-checked by TLC; the step function exported as a table and every row executed on a real proxy over a real connection pair, on a local twin and in the specification; random walks through the table on one proxy / one twin, proxy-side outcomes validated by TLC (Trace_RpycProxyOps); real buffiter runs validated against RpycBuffiter (Trace_RpycBuffiter)",
+        text="TLC checks the step laws over the whole abstract state space (list, dict, set, deque, generator, BytesIO, bytearray, user class; ~26000 state x operation rows) and the buffered-iteration loop for every chunk/factor/max_chunk in 1..4; each row must give, through the proxy, the same result / exception class / result type and leave the target in the same state as on a local twin, under classic, public-attribute and default configuration (operations the configuration refuses are outside the claim)",
+        note="finite operation vocabulary; operands are small ints, tuples, bytes, frozensets; the twin is a second oracle for the specification's Python semantics (disagreement = machinery failure); one genuine defect (PEP 688 __buffer__ forwarded by netrefs on Python 3.12) repaired by a fix: commit"),
     "C16": dict(
         spec="RpycServer", design="5/C16",
         technique="TLA+ spec RpycServer (accept, authenticate, serve, misbehaving clients, close) model-checked by TLC; state-graph paths replayed against real ThreadedServer / ThreadPoolServer / OneShotServer over real TCP and unix sockets (with and without authenticator) plus a ForkingServer probe in a child process; every good client's per-connection counter, service instance and exported object are compared with the specification after every bad client",
